@@ -600,3 +600,7 @@ def main(ctx):
     from mc.handles import several_handles
     several_handles(ctx, "several-handles", ctx.pick(["bin", "colon", "comma"], ["bin", "colon", "comma", "pipe"]),
                     depth=ctx.pick(4, 5), nodedup_depth=ctx.pick(3, 4))
+
+    # ------------------------------------------------ one Recfile object used for several files (mc/sfreuse.py)
+    from mc.sfreuse import reused_recfile_world
+    reused_recfile_world(ctx, "one-recfile-object-several-files", depth=ctx.pick(6, 8))
